@@ -187,6 +187,33 @@ pub fn run(rep: &mut Rep) {
         }
     }
     standalone_params(rep);
+    standalone_allow_list(rep);
+}
+
+/// The public alias `get_assertion::AllowList` on its own: exactly 10 descriptors.
+fn standalone_allow_list(rep: &mut Rep) {
+    use ctap_types::ctap2::get_assertion::AllowList;
+    use ctap_types::serde::cbor_deserialize;
+    let mut rng = Rng::derive(rep.seed, "c12-allowlist", rep.shard);
+    for n in [0usize, 1, 9, 10, 11, 12, 15, 16, 17, 24, 33] {
+        let list: Vec<V> = (0..n)
+            .map(|i| V::M(vec![(V::text("id"), V::B(vec![i as u8, rng.u64() as u8])), (V::text("type"), V::text("public-key"))]))
+            .collect();
+        let bytes = encode(&V::A(list));
+        if !rep.begin(&format!("standalone-allow-list/{}", if n <= 10 { "within" } else { "beyond" })) {
+            continue;
+        }
+        rep.input(&bytes, true);
+        let r = crate::report::guard(|| cbor_deserialize::<AllowList>(&bytes).map(|l| l.len()).map_err(|e| format!("{:?}", e)));
+        let bad = match (&r, n <= 10) {
+            (Ok(Ok(l)), true) if *l == n => None,
+            (Ok(Err(_)), false) => None,
+            other => Some(format!("{} descriptors: {:?}", n, other.0)),
+        };
+        if let Some(b) = bad {
+            rep.violation("C12|standalone-allow-list", format!("the allow-list type must hold exactly 10 entries: {}", b), &bytes);
+        }
+    }
 }
 
 /// Stand-alone PublicKeyCredentialParameters: an unknown-but-in-range alg is delivered whole.
